@@ -230,12 +230,13 @@ struct TpNullUtils : public ValidationUtils {
 };
 }
 
-// tp_parse k=<hex day definition> [limit=<s>] [ast=...] : what config validation does with this ranges key
+// tp_parse k=<hex day definition> [v=<hex time ranges>] [limit=<s>] [ast=...] : what config validation does with this ranges entry
 // (TimePeriod::ValidateRanges -> LegacyTimePeriod::ParseTimeRange), in a forked child under a watchdog:
 // res=ok | rejected (ValidationError) | hang (still running after <limit> seconds of real time) | crash
 VOP(tp_parse)
 {
-	std::string def = HexDec(a.str("k"));
+	std::string def = a.str("k", "-") == "-" ? std::string() : HexDec(a.str("k"));
+	std::string trs = a.str("v", "").empty() ? std::string("00:00-24:00") : (a.str("v") == "-" ? std::string() : HexDec(a.str("v")));
 	unsigned limit = (unsigned)a.num("limit", 3);
 	pid_t pid = fork();
 	if (pid < 0) throw std::runtime_error("fork failed");
@@ -245,7 +246,7 @@ VOP(tp_parse)
 		int rc = 0;
 		try {
 			TimePeriod::Ptr tp = new TimePeriod();
-			Dictionary::Ptr r = new Dictionary({ { String(def), String("00:00-24:00") } });
+			Dictionary::Ptr r = new Dictionary({ { String(def), String(trs) } });
 			TpNullUtils utils;
 			tp->ValidateRanges(Lazy<Dictionary::Ptr>(r), utils);
 		} catch (...) {
